@@ -54,6 +54,7 @@ fn spec_strategy(i: u8, n: u8) -> BoxedStrategy<ActorSpec> {
             sup,
             sup_stops,
             reply: vec![],
+            state_drop_panics: false,
         })
         .boxed()
 }
